@@ -1,4 +1,551 @@
-(* Enc.v -- stub; the model that belongs here is being written. *)
-From P7 Require Import Prelude.
+(* Enc.v -- model of what py7zr does when a password is given (property C11).
+
+   Python sources mirrored here (py7zr, read-only):
+     py7zr/helpers.py     _calculate_key1 / _calculate_key3                       (l.64-151)
+     py7zr/compressor.py  AESCompressor.__init__ / encode_filter_properties       (l.109-139)
+                          AESDecompressor.__init__                                 (l.186-210)
+                          SevenZipDecompressor.__init__ (checks before any decode) (l.588-612)
+                          SevenZipCompressor.compress / flush / unpacksizes        (l.893-935)
+     py7zr/archiveinfo.py Header.write / _encode_header, HeaderStreamsInfo.write,
+                          Header._read (encoded header branch), SignatureHeader.write
+     py7zr/py7zr.py       _make_file_info_from_name, Worker.writestr/_after_write/flush_archive,
+                          Worker.decompress + CRC check of extract_single (l.1433-1437, 1461-1506)
+
+   NOT modelled (Section variables, contracts; see EncProofs.v for the instances showing they
+   are satisfiable):  the hash (SHA-256) -- only  update(update h a) b = update h (a ++ b);
+   the AES block function under a key;  the compressors in front of AES (stateful stages with an
+   arbitrary step / flush function);  the LZMA2 coder of a non-encrypted encoded header;  the RNG
+   (an infinite byte stream read left to right).
+
+   Definitions only (proofs: EncProofs.v), everything computable.  *)
+From P7 Require Import Prelude PyPrims Number Crc32 Header Aes.
 Open Scope Z_scope.
-Definition enc_dispatch (fn : Z) (a : tree) : tree := TL [TI (-2)].
+
+(* ====================================================================== *)
+(* 1. Password -> bytes:  password.encode("utf-16LE")                      *)
+(* ====================================================================== *)
+(* code points -> UTF-16-LE, no terminator; a lone surrogate raises UnicodeEncodeError *)
+Definition pw_utf16 (pw : list Z) : res bytes := wr_list utf16_enc_char pw.
+
+(* ====================================================================== *)
+(* 2. Key derivation over an abstract hash                                 *)
+(* ====================================================================== *)
+Definition range0 (n : Z) : list Z := range_from 0 (Z.to_nat n).
+
+Section KDF.
+Variable H : Type.
+Variable hinit : H.
+Variable hupdate : H -> bytes -> H.
+Variable hdigest : H -> bytes.
+
+(* salt + password + round.to_bytes(8, "little") *)
+Definition kdf_block (sp : bytes) (r : Z) : bytes := sp ++ le_bytes 8 r.
+
+(* _calculate_key1: one update() per round.
+     assert cycles <= 0x3F           -> Err EOther (AssertionError)
+     1 << cycles with cycles < 0     -> Err EOther (ValueError)                       *)
+Definition key1 (pw : bytes) (cycles : Z) (salt : bytes) : res bytes :=
+  if 63 <? cycles then Err EOther
+  else if cycles =? 63 then Ok (firstn 32 (salt ++ pw ++ zeros 32))
+  else if cycles <? 0 then Err EOther
+  else
+    let rounds := 2 ^ cycles in
+    let m := fold_left (fun h r => hupdate h (kdf_block (salt ++ pw) r)) (range0 rounds) hinit in
+    Ok (firstn 32 (hdigest m)).
+
+(* _calculate_key3: rounds grouped, one update() per stage of 2^6 rounds *)
+Definition kdf_stage (sp : bytes) (rounds s : Z) : bytes :=
+  concat (map (fun i => kdf_block sp (s + i)) (range0 rounds)).
+
+Definition key3 (pw : bytes) (cycles : Z) (salt : bytes) : res bytes :=
+  if 63 <? cycles then Err EOther
+  else if cycles =? 63 then Ok (firstn 32 (salt ++ pw ++ zeros 32))
+  else if cycles <? 0 then Err EOther
+  else
+    let cat_cycle := 6 in
+    let rounds := if cat_cycle <? cycles then 2 ^ cat_cycle else 2 ^ cycles in
+    let stages := if cat_cycle <? cycles then 2 ^ (cycles - cat_cycle) else 1 in
+    (* for _ in range(stages): m.update(b"".join(...)); s += rounds *)
+    let ms := fold_left (fun (st : H * Z) (_ : Z) =>
+                           (hupdate (fst st) (kdf_stage (salt ++ pw) rounds (snd st)), snd st + rounds))
+                        (range0 stages) (hinit, 0) in
+    Ok (firstn 32 (hdigest (fst ms))).
+End KDF.
+
+(* The free hash: the state is everything fed so far (kept reversed so that update is
+   linear), the "digest" is that transcript.  Every hash satisfying the Section hypothesis
+   factors through it; the harness feeds the transcript to hashlib.sha256. *)
+Definition fh_update (h : bytes) (a : bytes) : bytes := rev_append a h.
+Definition fh_digest (h : bytes) : bytes := rev_append h [].
+
+(* the message that is hashed (cycles < 63), or the key itself (cycles = 63) *)
+Definition kdf_transcript (which : Z) (pw : bytes) (cycles : Z) (salt : bytes) : res bytes :=
+  if 63 <? cycles then Err EOther
+  else if cycles =? 63 then Ok (firstn 32 (salt ++ pw ++ zeros 32))
+  else if cycles <? 0 then Err EOther
+  else
+    if which =? 1 then
+      Ok (fh_digest (fold_left (fun h r => fh_update h (kdf_block (salt ++ pw) r)) (range0 (2 ^ cycles)) []))
+    else
+      let rounds := if 6 <? cycles then 2 ^ 6 else 2 ^ cycles in
+      let stages := if 6 <? cycles then 2 ^ (cycles - 6) else 1 in
+      Ok (fh_digest (fst (fold_left (fun (st : bytes * Z) (_ : Z) =>
+                           (fh_update (fst st) (kdf_stage (salt ++ pw) rounds (snd st)), snd st + rounds))
+                        (range0 stages) ([], 0)))).
+
+(* ====================================================================== *)
+(* 3. 7zAES coder properties                                               *)
+(* ====================================================================== *)
+Definition AES_METHOD : bytes := [6; 241; 7; 1].
+Definition WRITER_CYCLES : Z := 19.
+
+(* AESCompressor.encode_filter_properties (self.cycles, self.salt, self.iv) *)
+Definition aes_encode_props (cycles : Z) (salt iv : bytes) : res bytes :=
+  let saltsize := blen salt in
+  let ivsize := blen iv in
+  let ivfirst := 1 in
+  let saltfirst := if 0 <? saltsize then 1 else 0 in
+  do firstbyte <- py_to_bytes_le (cycles + Z.shiftl ivfirst 6 + Z.shiftl saltfirst 7) 1;
+  do secondbyte <- py_to_bytes_le (Z.land (ivsize - 1) 15 + Z.land (Z.shiftl (saltsize - saltfirst) 4) 240) 1;
+  Ok (firstbyte ++ secondbyte ++ salt ++ iv).
+
+(* AESDecompressor.__init__, up to the key derivation: (numcyclespower, salt, iv padded to 16) *)
+Definition aes_parse_props (props : bytes) : res (Z * bytes * bytes) :=
+  match props with
+  | [] => Err EOther                                        (* IndexError *)
+  | firstbyte :: _ =>
+      let numcyclespower := Z.land firstbyte 63 in
+      if negb (Z.land firstbyte 192 =? 0) then
+        let saltsize0 := Z.land (Z.shiftr firstbyte 7) 1 in
+        let ivsize0 := Z.land (Z.shiftr firstbyte 6) 1 in
+        match props with
+        | _ :: secondbyte :: _ =>
+            let saltsize := saltsize0 + Z.shiftr secondbyte 4 in
+            let ivsize := ivsize0 + Z.land secondbyte 15 in
+            if negb (blen props =? 2 + saltsize + ivsize) then Err EOther     (* assert *)
+            else
+              let salt := takeZ saltsize (dropZ 2 props) in
+              let iv := takeZ ivsize (dropZ (2 + saltsize) props) in
+              if 24 <? numcyclespower then Err EOther                           (* assert *)
+              else
+                let iv16 := if ivsize <? 16 then iv ++ zeros (16 - ivsize) else iv in
+                Ok (numcyclespower, salt, iv16)
+        | _ => Err EOther                                   (* IndexError *)
+        end
+      else Err EUnsupported                                 (* "Wrong 7zAES properties" *)
+  end.
+
+(* ====================================================================== *)
+(* 4. RNG: an infinite stream consumed left to right                       *)
+(* ====================================================================== *)
+Definition rng := nat -> Z.
+(* get_random_bytes(16) at stream position p *)
+Definition draw16 (r : rng) (p : nat) : bytes := map r (seq p 16).
+(* position of the k-th AESCompressor construction of a run that started at p0 *)
+Definition draw_pos (p0 k : nat) : nat := (p0 + 16 * k)%nat.
+
+(* ====================================================================== *)
+(* 5. Layout of an archive (L1): a function of metadata and opaque streams *)
+(* ====================================================================== *)
+Definition le_res (n : nat) (v : Z) : res bytes := wr_fixed n v.
+
+(* SignatureHeader.calccrc + write *)
+Definition sig_header (ofs size crc : Z) : res bytes :=
+  do a <- le_res 8 ofs; do b <- le_res 8 size; do c <- le_res 4 crc;
+  let startdata := a ++ b ++ c in
+  do s <- le_res 4 (crc32 startdata);
+  Ok (MAGIC ++ [0; 4] ++ s ++ startdata).
+
+(* HeaderStreamsInfo.write for the one folder of an encoded header: no packed CRC
+   (enable_digests = False, digestdefined empty), no folder CRC (UnpackInfo.write) *)
+Definition mk_bonds (ncoders : Z) : list (Z * Z) := map (fun i => (i + 1, i)) (range0 (ncoders - 1)).
+Definition hdr_descriptor (packpos : Z) (hcoders : list coder) (hpacksize hrawlen : Z) (hcrc : Z) : res bytes :=
+  do a <- write_packinfo false (mkPack packpos 1 [hpacksize] [] [hcrc]);
+  do b <- write_unpackinfo [mkFolder hcoders (mk_bonds (zlen hcoders)) [] [hrawlen] false None];
+  Ok ([23] ++ a ++ b ++ [0]).
+
+(* mode 0: raw header; 1: encoded (LZMA2) header; 2: encrypted header.
+   packed  = the main packed stream, hpacked = the packed header stream (modes 1, 2),
+   hcoders = the coders of the header folder, h = the header graph.               *)
+Definition assemble (mode : Z) (h : header) (packed : bytes) (hcoders : list coder) (hpacked : bytes) : res bytes :=
+  if mode =? 0 then
+    do hb <- write_header true (32 + blen packed) h;
+    do sg <- sig_header (blen packed) (blen hb) (crc32 hb);
+    Ok (sg ++ packed ++ hb)
+  else
+    do hraw <- write_header true 0 h;
+    do desc <- hdr_descriptor (blen packed) hcoders (blen hpacked) (blen hraw) (crc32 hpacked);
+    do sg <- sig_header (blen packed + blen hpacked) (blen desc) (crc32 desc);
+    Ok (sg ++ packed ++ hpacked ++ desc).
+
+(* the part of an archive with an encoded/encrypted header that is NOT the two packed streams *)
+Definition plain_parts (packsize : Z) (hcoders : list coder) (hpacked : bytes) (hrawlen : Z) : res (bytes * bytes) :=
+  do desc <- hdr_descriptor packsize hcoders (blen hpacked) hrawlen (crc32 hpacked);
+  do sg <- sig_header (packsize + blen hpacked) (blen desc) (crc32 desc);
+  Ok (sg, desc).
+
+(* ---- metadata of a one-folder write session ---- *)
+Record meta := mkMeta {
+  mt_names : list (list Z);        (* code points *)
+  mt_mtimes : list Z;
+  mt_attrs : list Z;
+  mt_sizes : list Z;               (* len(content) *)
+  mt_crcs : list Z;                (* CRC-32 of each PLAINTEXT content: stored by construction *)
+  mt_usizes : list Z;              (* folder.unpacksizes: input length of every coder *)
+  mt_pre_coders : list coder;      (* coders behind AES, header order *)
+  mt_iv : bytes                    (* IV of the folder's AES coder *)
+}.
+
+Definition aes_coder (iv : bytes) : res coder :=
+  do p <- aes_encode_props WRITER_CYCLES [] iv;
+  Ok (mkCoder AES_METHOD 1 1 (Some p)).
+
+Fixpoint mk_files (names : list (list Z)) (mtimes attrs : list Z) : list fileent :=
+  match names, mtimes, attrs with
+  | n :: ns, t :: ts, a :: ats =>
+      mkFile false (Some n) None None (Some (Some t)) (Some (Some a)) :: mk_files ns ts ats
+  | _, _, _ => []
+  end.
+
+(* Header.initialize + Worker._after_write + Worker.flush_archive, one folder, password given
+   (packinfo.enable_digests = True: the CRC of the CIPHERTEXT is stored too) *)
+Definition mk_header (m : meta) (packsize pcrc : Z) : res header :=
+  do ac <- aes_coder (mt_iv m);
+  let coders := ac :: mt_pre_coders m in
+  let n := length (mt_names m) in
+  let fo := mkFolder coders (mk_bonds (zlen coders)) [] (mt_usizes m) false None in
+  Ok (mkHeader
+        (Some (mkStreams (Some (mkPack 0 1 [packsize] [true] [pcrc]))
+                         (Some [fo])
+                         (Some (mkSub [Z.of_nat n] (Some (mt_sizes m)) (repeat true n) (mt_crcs m)))))
+        (Some (mk_files (mt_names m) (mt_mtimes m) (mt_attrs m)))
+        (repeat false n)).
+
+Definition assemble_meta (mode : Z) (m : meta) (packed : bytes) (hcoders : list coder) (hpacked : bytes)
+  : res bytes :=
+  do h <- mk_header m (blen packed) (crc32 packed);
+  assemble mode h packed hcoders hpacked.
+
+(* raw header bytes of a session (what gets LZMA2-compressed or encrypted in modes 1, 2) *)
+Definition header_raw (m : meta) (packed : bytes) : res bytes :=
+  do h <- mk_header m (blen packed) (crc32 packed);
+  write_header true 0 h.
+
+(* ====================================================================== *)
+(* 6. The writer, step by step (L2)                                        *)
+(* ====================================================================== *)
+(* fd.read(block_size) until b"" *)
+Fixpoint chunks_fuel (fuel : nat) (bs : Z) (d : bytes) : list bytes :=
+  match fuel with
+  | O => []
+  | S f => match d with
+           | [] => []
+           | _ => takeZ bs d :: chunks_fuel f bs (dropZ bs d)
+           end
+  end.
+Definition chunks_of (bs : Z) (d : bytes) : list bytes := chunks_fuel (length d) bs d.
+
+Fixpoint zip_add (a b : list Z) : list Z :=
+  match a, b with
+  | x :: a', y :: b' => (x + y) :: zip_add a' b'
+  | _, _ => a
+  end.
+
+(* SevenZipCompressor.unpacksizes: reversed, consecutive native filters share an entry *)
+Fixpoint unpacksizes_aux (mm : list bool) (i shift : Z) (prev : bool) (usz acc : list Z) : res (list Z) :=
+  match mm with
+  | [] => Ok acc
+  | r :: rest =>
+      let shift' := if r && prev then shift + 1 else shift in
+      do x <- PyPrims.py_index usz (i - shift');
+      unpacksizes_aux rest (i + 1) shift' r usz (x :: acc)
+  end.
+Definition unpacksizes_prop (mm : list bool) (usz : list Z) : res (list Z) :=
+  unpacksizes_aux mm 0 0 false usz [].
+
+Record member := mkMember { m_name : list Z; m_mtime : Z; m_attr : Z; m_data : bytes }.
+
+Section Session.
+Variable Eb : bytes -> bytes.                 (* AES block encryption under the derived key *)
+Variable C : Type.                            (* state of a coder in front of AES *)
+Variable c_step : C -> bytes -> C * bytes.    (* compressor.compress(data) *)
+Variable c_flush : C -> bytes.                (* compressor.flush() *)
+
+(* for i, compressor in enumerate(self.chain): self._unpacksizes[i] += len(data); data = compressor.compress(data)
+   restricted to the stages in front of AES: (new states, len(data) seen by each stage, what reaches AES) *)
+Fixpoint run_stages (cs : list C) (data : bytes) : list C * list Z * bytes :=
+  match cs with
+  | [] => ([], [], data)
+  | c :: r =>
+      let (c', o) := c_step c data in
+      let '(r', szs, out) := run_stages r o in
+      (c' :: r', blen data :: szs, out)
+  end.
+
+(* SevenZipCompressor.flush over the stages in front of AES.  data = None | bytes; `if data:` *)
+Fixpoint flush_stages (cs : list C) (data : option bytes) : list Z * option bytes :=
+  match cs with
+  | [] => ([], data)
+  | c :: r =>
+      let '(inc, d') :=
+        match data with
+        | Some (x :: xs) => let (c', o) := c_step c (x :: xs) in (blen (x :: xs), o ++ c_flush c')
+        | _ => (0, c_flush c)
+        end in
+      let (incs, out) := flush_stages r (Some d') in
+      (inc :: incs, out)
+  end.
+
+(* chain = stages in front of AES ++ [AESCompressor]; _unpacksizes = ch_usz_pre ++ [ch_usz_aes] *)
+Record chain := mkChain { ch_pre : list C; ch_aes : cstate; ch_usz_pre : list Z; ch_usz_aes : Z }.
+
+Definition chain_init (cs : list C) (iv : bytes) : chain :=
+  mkChain cs (cinit iv) (repeat 0 (length cs)) 0.
+
+(* one iteration of `while data:` in SevenZipCompressor.compress; returns what fp.write gets *)
+Definition sz_block (ch : chain) (data : bytes) : chain * bytes :=
+  let '(pre', szs, mid) := run_stages (ch_pre ch) data in
+  let (a', out) := aes_compress Eb (ch_aes ch) mid in
+  (mkChain pre' a' (zip_add (ch_usz_pre ch) szs) (ch_usz_aes ch + blen mid), out).
+
+Fixpoint sz_blocks (ch : chain) (blocks : list bytes) : chain * bytes :=
+  match blocks with
+  | [] => (ch, [])
+  | d :: rest =>
+      let (ch1, o1) := sz_block ch d in
+      let (ch2, o2) := sz_blocks ch1 rest in
+      (ch2, o1 ++ o2)
+  end.
+
+(* SevenZipCompressor.flush *)
+Definition sz_flush (ch : chain) : chain * bytes :=
+  let (incs, d) := flush_stages (ch_pre ch) None in
+  match d with
+  | Some (x :: xs) =>
+      let (a1, o1) := aes_compress Eb (ch_aes ch) (x :: xs) in
+      let (a2, o2) := aes_flush Eb a1 in
+      (mkChain (ch_pre ch) a2 (zip_add (ch_usz_pre ch) incs) (ch_usz_aes ch + blen (x :: xs)), o1 ++ o2)
+  | _ =>
+      let (a2, o2) := aes_flush Eb (ch_aes ch) in
+      (mkChain (ch_pre ch) a2 (zip_add (ch_usz_pre ch) incs) (ch_usz_aes ch), o2)
+  end.
+
+(* all members of the session through one folder compressor, then flush_archive *)
+Definition session_blocks (bs : Z) (ms : list member) : list bytes :=
+  flat_map (fun m => chunks_of bs (m_data m)) ms.
+
+Definition session_packed (bs : Z) (cs : list C) (iv : bytes) (ms : list member) : chain * bytes :=
+  let (ch1, o1) := sz_blocks (chain_init cs iv) (session_blocks bs ms) in
+  let (ch2, o2) := sz_flush ch1 in
+  (ch2, o1 ++ o2).
+
+(* ---- the same run WITHOUT the cipher: what AES is given, and the stage input sizes ---- *)
+Fixpoint pre_blocks (cs : list C) (usz : list Z) (blocks : list bytes) : list C * list Z * list bytes :=
+  match blocks with
+  | [] => (cs, usz, [])
+  | d :: rest =>
+      let '(cs1, szs, mid) := run_stages cs d in
+      let '(cs2, usz2, mids) := pre_blocks cs1 (zip_add usz szs) rest in
+      (cs2, usz2, mid :: mids)
+  end.
+
+Definition opt_bytes (d : option bytes) : bytes := match d with Some x => x | None => [] end.
+
+(* (input sizes of the stages in front of AES, the byte string handed to AES) *)
+Definition pre_run (cs : list C) (blocks : list bytes) : list Z * bytes :=
+  let '(cs1, usz1, mids) := pre_blocks cs (repeat 0 (length cs)) blocks in
+  let (incs, d) := flush_stages cs1 None in
+  (zip_add usz1 incs, concat mids ++ opt_bytes d).
+
+Definition pre_stream (bs : Z) (cs : list C) (ms : list member) : bytes :=
+  snd (pre_run cs (session_blocks bs ms)).
+
+Definition session_meta (mm : list bool) (pre_coders : list coder) (bs : Z) (cs : list C) (iv : bytes)
+           (ms : list member) : res meta :=
+  let (uszpre, stream) := pre_run cs (session_blocks bs ms) in
+  do us <- unpacksizes_prop mm (uszpre ++ [blen stream]);
+  Ok (mkMeta (map m_name ms) (map m_mtime ms) (map m_attr ms)
+             (map (fun m => blen (m_data m)) ms) (map (fun m => crc32 (m_data m)) ms)
+             us pre_coders iv).
+
+(* ---- the whole write session: SevenZipFile(..., "w", filters, password, header_encryption),
+        writestr x n, close().  hdr_lzma / hcoder: the LZMA2 stage of mode 1 (abstract).
+        r, p0: RNG stream and its position when the session starts. ---- *)
+Variable hdr_lzma : bytes -> bytes.
+
+Definition session_usz (ch : chain) : list Z := ch_usz_pre ch ++ [ch_usz_aes ch].
+
+Definition write_archive (mode : Z) (mm : list bool) (pre_coders : list coder) (hcoder : coder) (bs : Z)
+           (cs : list C) (r : rng) (p0 : nat) (ms : list member) : res (bytes * nat) :=
+  (* Header.initialize -> Folder.prepare_coderinfo -> AESCompressor(password): first draw *)
+  let iv := draw16 r (draw_pos p0 0) in
+  let (ch, packed) := session_packed bs cs iv ms in
+  do us <- unpacksizes_prop mm (session_usz ch);
+  let m := mkMeta (map m_name ms) (map m_mtime ms) (map m_attr ms)
+                  (map (fun m => blen (m_data m)) ms) (map (fun m => crc32 (m_data m)) ms)
+                  us pre_coders iv in
+  do h <- mk_header m (blen packed) (crc32 packed);
+  if mode =? 0 then
+    do a <- assemble 0 h packed [] [];
+    Ok (a, draw_pos p0 1)
+  else if mode =? 1 then
+    do hraw <- write_header true 0 h;
+    do a <- assemble 1 h packed [hcoder] (hdr_lzma hraw);
+    Ok (a, draw_pos p0 1)
+  else
+    (* Header._encode_header with ENCRYPTED_HEADER_FILTER: a second AESCompressor, second draw *)
+    let ivh := draw16 r (draw_pos p0 1) in
+    do hraw <- write_header true 0 h;
+    do hc <- aes_coder ivh;
+    let (ch1, o1) := sz_blocks (chain_init [] ivh) (chunks_of bs hraw) in
+    let (_, o2) := sz_flush ch1 in
+    do a <- assemble 2 h packed [hc] (o1 ++ o2);
+    Ok (a, draw_pos p0 2).
+
+End Session.
+
+(* What the writer produces once the metadata and the main ciphertext are known.  NOTE the
+   arguments: no member, no content bytes -- only the metadata record, the packed (encrypted)
+   stream, the RNG and the abstract coders. *)
+Definition archive_of (Eb : bytes -> bytes) (hdr_lzma : bytes -> bytes) (mode : Z) (hcoder : coder)
+           (m : meta) (packed : bytes) (r : rng) (p0 : nat) : res (bytes * nat) :=
+  do h <- mk_header m (blen packed) (crc32 packed);
+  if mode =? 0 then
+    do a <- assemble 0 h packed [] [];
+    Ok (a, draw_pos p0 1)
+  else if mode =? 1 then
+    do hraw <- write_header true 0 h;
+    do a <- assemble 1 h packed [hcoder] (hdr_lzma hraw);
+    Ok (a, draw_pos p0 1)
+  else
+    let ivh := draw16 r (draw_pos p0 1) in
+    do hraw <- write_header true 0 h;
+    do hc <- aes_coder ivh;
+    do a <- assemble 2 h packed [hc] (fst (cbc_enc Eb ivh (pad16 hraw)));
+    Ok (a, draw_pos p0 2).
+
+(* ====================================================================== *)
+(* 7. Reading: decisions                                                   *)
+(* ====================================================================== *)
+(* SupportedMethods.methods: (method id, native) *)
+Definition METHODS : list (bytes * bool) :=
+  [([0], false); ([33], true); ([3], true); ([3;1;1], true); ([3;3;1;3], true); ([3;3;2;5], true);
+   ([3;3;4;1], true); ([3;3;5;1], true); ([3;3;7;1], true); ([3;3;8;5], true); ([4;1;8], false);
+   ([4;2;2], false); ([4;247;17;1], false); ([3;4;1], false); ([4;247;17;2], false); ([4;1;9], false);
+   (AES_METHOD, false)].
+
+Fixpoint bytes_eqb (a b : bytes) : bool :=
+  match a, b with
+  | [], [] => true
+  | x :: a', y :: b' => (x =? y) && bytes_eqb a' b'
+  | _, _ => false
+  end.
+Definition find_method (m : bytes) : option bool :=
+  match find (fun e => bytes_eqb (fst e) m) METHODS with Some e => Some (snd e) | None => None end.
+Definition needs_password (methods : list bytes) : bool := existsb (bytes_eqb AES_METHOD) methods.
+
+(* SevenZipDecompressor.__init__ up to and including the password test: everything that can
+   happen before the first decoder object exists *)
+Definition sz_decompressor_precheck (methods : list bytes) (has_password : bool) : res unit :=
+  if 4 <? zlen methods then Err EUnsupported
+  else if negb (forallb (fun m => match find_method m with Some _ => true | None => false end) methods)
+  then Err EUnsupported                                   (* is_native_coder -> raise_unsupported_method_id *)
+  else if needs_password methods && negb has_password then Err EPassword
+  else Ok tt.
+
+(* Worker.extract_single over the members of one folder, given the decoded folder stream that the
+   decoders can produce (all of it).  Worker.decompress loops `while out_remaining > 0` calling the
+   decoder; when the decoders have nothing more to give the loop never ends: Err EFuel = the call hangs.
+   CRC is compared AFTER the member's bytes have been written to the output. *)
+Fixpoint extract_members (stream : bytes) (sizes crcs : list Z) : res (list bytes) :=
+  match sizes, crcs with
+  | n :: ns, c :: cs =>
+      if blen stream <? n then Err EFuel
+      else
+        let g := takeZ n stream in
+        if crc32 g =? c then
+          do rest <- extract_members (dropZ n stream) ns cs; Ok (g :: rest)
+        else Err ECrc
+  | _, _ => Ok []
+  end.
+
+(* a folder [AES] or [Copy, AES] read with block decryption Db (right or wrong key) *)
+Definition read_aes_folder (Db : bytes -> bytes) (iv packed : bytes) (sizes crcs : list Z) : res (list bytes) :=
+  extract_members (fst (cbc_dec Db iv packed)) sizes crcs.
+
+(* a folder [X, AES]: Dz = what the decoder of X makes of the decrypted stream
+   (an error, or as many bytes as it can produce) *)
+Definition read_chain_folder (Db : bytes -> bytes) (Dz : bytes -> res bytes) (iv packed : bytes)
+           (sizes crcs : list Z) : res (list bytes) :=
+  do s <- Dz (fst (cbc_dec Db iv packed));
+  extract_members s sizes crcs.
+
+(* Header._read, ENCODED_HEADER branch with one AES folder: decrypt, cut to the unpack size,
+   (no CRC: digestdefined is False in what py7zr writes), then the header parser *)
+Definition decoded_header (lim : Z) (buf : bytes) : res header :=
+  match buf with
+  | 1 :: r => do (h, _) <- parse_header_body lim r; Ok h     (* pid == HEADER *)
+  | _ => Err EOther                                           (* TypeError("Unknown field") *)
+  end.
+Definition open_encrypted_header (Db : bytes -> bytes) (lim : Z) (ivh hpacked : bytes) (hrawlen : Z) : res header :=
+  decoded_header lim (takeZ hrawlen (fst (cbc_dec Db ivh hpacked))).
+
+(* ====================================================================== *)
+(* 8. Toy instances (runnable; also the satisfiability witnesses)          *)
+(* ====================================================================== *)
+(* keyed toy block cipher: xor with the first 16 key bytes *)
+Definition toyK (key blk : bytes) : bytes := xor_bytes blk (firstn 16 key).
+(* CopyCompressor as a stage *)
+Definition copy_step (c : unit) (d : bytes) : unit * bytes := (c, d).
+Definition copy_flush (c : unit) : bytes := [].
+
+(* ====================================================================== *)
+(* 9. Dispatcher                                                           *)
+(* ====================================================================== *)
+Definition t_unit (_ : unit) : tree := TL [].
+Definition of_Zlist (t : tree) : list Z := map of_TI (of_TL t).
+Definition of_coder' (t : tree) : coder :=
+  mkCoder (of_bytes (tnth t 0)) (of_TI (tnth t 1)) (of_TI (tnth t 2)) (of_opt of_bytes (tnth t 3)).
+Definition of_meta (t : tree) : meta :=
+  mkMeta (map of_Zlist (of_TL (tnth t 0))) (of_Zlist (tnth t 1)) (of_Zlist (tnth t 2)) (of_Zlist (tnth t 3))
+         (of_Zlist (tnth t 4)) (of_Zlist (tnth t 5)) (map of_coder' (of_TL (tnth t 6))) (of_bytes (tnth t 7)).
+Definition of_member (t : tree) : member :=
+  mkMember (of_Zlist (tnth t 0)) (of_TI (tnth t 1)) (of_TI (tnth t 2)) (of_bytes (tnth t 3)).
+Definition rng_of_bytes (b : bytes) : rng := fun i => nth i b 0.
+
+Definition enc_dispatch (fn : Z) (a : tree) : tree :=
+  match fn with
+  (* FN 360 kdf_transcript : (which pw_bytes cycles salt) -> res bytes *)
+  | 360 => t_res t_bytes (kdf_transcript (of_TI (tnth a 0)) (of_bytes (tnth a 1)) (of_TI (tnth a 2)) (of_bytes (tnth a 3)))
+  (* FN 361 pw_utf16 : codepoints -> res bytes *)
+  | 361 => t_res t_bytes (pw_utf16 (of_Zlist a))
+  (* FN 362 aes_encode_props : (cycles salt iv) -> res bytes *)
+  | 362 => t_res t_bytes (aes_encode_props (of_TI (tnth a 0)) (of_bytes (tnth a 1)) (of_bytes (tnth a 2)))
+  (* FN 363 aes_parse_props : bytes -> res (cycles salt iv16) *)
+  | 363 => t_res (fun '(c, s, i) => TL [TI c; t_bytes s; t_bytes i]) (aes_parse_props (of_bytes a))
+  (* FN 364 assemble_meta : (mode meta packed hcoders hpacked) -> res bytes *)
+  | 364 => t_res t_bytes (assemble_meta (of_TI (tnth a 0)) (of_meta (tnth a 1)) (of_bytes (tnth a 2))
+                                        (map of_coder' (of_TL (tnth a 3))) (of_bytes (tnth a 4)))
+  (* FN 365 header_raw : (meta packed) -> res bytes *)
+  | 365 => t_res t_bytes (header_raw (of_meta (tnth a 0)) (of_bytes (tnth a 1)))
+  (* FN 366 write_archive_toy : (mode mm pre_coders bs ncopy rngbytes key members) -> res (bytes pos) ;
+        toy cipher xor key[:16], ncopy Copy stages in front of AES, header "LZMA2" stage = identity *)
+  | 366 => t_res (fun '(b, p) => TL [t_bytes b; TI (Z.of_nat p)])
+             (write_archive (toyK (of_bytes (tnth a 6))) unit copy_step copy_flush (fun x => x)
+                (of_TI (tnth a 0)) (map of_bool (of_TL (tnth a 1))) (map of_coder' (of_TL (tnth a 2)))
+                (mkCoder [0] 1 1 None) (of_TI (tnth a 3)) (repeat tt (Z.to_nat (of_TI (tnth a 4))))
+                (rng_of_bytes (of_bytes (tnth a 5))) 0 (map of_member (of_TL (tnth a 7))))
+  (* FN 367 sz_decompressor_precheck : (methods has_password) -> res () *)
+  | 367 => t_res t_unit (sz_decompressor_precheck (map of_bytes (of_TL (tnth a 0))) (of_bool (tnth a 1)))
+  (* FN 368 extract_members : (stream sizes crcs) -> res (list bytes) *)
+  | 368 => t_res (fun l => TL (map t_bytes l))
+             (extract_members (of_bytes (tnth a 0)) (of_Zlist (tnth a 1)) (of_Zlist (tnth a 2)))
+  (* FN 369 unpacksizes_prop : (methods_map usz) -> res sizes *)
+  | 369 => t_res (fun l => TL (map TI l)) (unpacksizes_prop (map of_bool (of_TL (tnth a 0))) (of_Zlist (tnth a 1)))
+  (* FN 370 plain_parts : (packsize hcoders hpacked hrawlen) -> res (sig desc) *)
+  | 370 => t_res (fun '(s, d) => TL [t_bytes s; t_bytes d])
+             (plain_parts (of_TI (tnth a 0)) (map of_coder' (of_TL (tnth a 1))) (of_bytes (tnth a 2)) (of_TI (tnth a 3)))
+  (* FN 371 decoded_header_ok : (lim bytes) -> res () ; does the reader accept these bytes as a decoded header *)
+  | 371 => t_res t_unit (do _ <- decoded_header (of_TI (tnth a 0)) (of_bytes (tnth a 1)); Ok tt)
+  | _ => TL [TI (-2)]
+  end.
